@@ -616,7 +616,7 @@ Section Proofs.
   Definition regs_ok (regs : list handle) : Prop := Forall cbs_hashed regs.
 
   Definition plain (i : instr) : Prop :=
-    match i with IChangeInput _ | ISecondLinker _ _ _ | ISetDebug _ => False | _ => True end.
+    match i with IChangeInput _ | ISecondLinker _ _ _ | ISetDebug _ | IInvalidateKeepResults => False | _ => True end.
 
   Lemma regs_ok_app regs h : regs_ok regs -> cbs_hashed h -> regs_ok (regs ++ [h]).
   Proof. intros. apply Forall_app. split; auto. Qed.
@@ -649,6 +649,19 @@ Section Proofs.
       cbn in H. destruct H as (I1 & S1 & Hh & Hc & _ & _). cbn.
       destruct Hc as (c1 & c2 & c3 & c4 & c5 & c6 & c7 & c8).
       repeat (split; auto). apply regs_ok_app; auto.
+    - (* IComputeConcat *)
+      destruct (aget (st_cache K s) (named CONCAT)) eqn:E; cbn -[exec_pipeline].
+      + repeat (split; auto). apply regs_ok_app; auto. eapply iv_cache_cbs; eauto.
+      + destruct (aget (st_cache K s) (named CWTF)) eqn:E2; cbn -[exec_pipeline].
+        * repeat (split; auto). apply regs_ok_app; auto. pose proof (iv_cache_cbs _ I _ _ E2) as Hh. exact Hh.
+        * pose proof (exec_pipeline_spec s CONCAT (concat_tree K s) [] [] true I Hs eq_refl) as H.
+          destruct (exec_pipeline K keqb hash s CONCAT (concat_tree K s) [] [] true) as [[s1 h] ev].
+          cbn in H. destruct H as (I1 & S1 & Hh & Hc & _ & _). cbn.
+          destruct Hc as (c1 & c2 & c3 & c4 & c5 & c6 & c7 & c8).
+          split; [apply InvS_set_named; auto|]. split; [eapply Sound_uid; [| |exact S1]; auto|].
+          split; [apply regs_ok_app; auto|]. auto.
+    - (* IFreshUid *)
+      split; [|repeat (split; auto)]. destruct I. constructor; cbn; auto. intros b u H. apply iv_fresh0 in H. lia.
     - (* IDrop *)
       destruct (nth_error regs i) eqn:E; cbn; [|repeat (split; auto)].
       assert (Hh : cbs_hashed h). { unfold regs_ok in Hr. rewrite Forall_forall in Hr. apply Hr. eapply nth_error_In; eauto. }
@@ -853,9 +866,11 @@ Section Proofs.
   (* [strict]: the cached concat_with_tf is the one the current lookups denote; the weak form (strict = False)
      holds between the two steps of the repaired register_term_frequency_lookup *)
   Record NamedOKg (strict : Prop) (s : state) : Prop := {
-    nk_keys : forall l h, aget (st_cache K s) (PL l) = Some h -> l = LPlain CWTF \/ exists c, l = LPlain (tfname c);
+    nk_keys : forall l h, aget (st_cache K s) (PL l) = Some h ->
+              l = LPlain CWTF \/ l = LPlain CONCAT \/ exists c, l = LPlain (tfname c);
     nk_cwtf : forall h, aget (st_cache K s) (named CWTF) = Some h ->
               exists v, hashed_ok s h CWTF v /\ (strict -> v = cwtf_spec s);
+    nk_concat : forall h, aget (st_cache K s) (named CONCAT) = Some h -> hashed_ok s h CONCAT (concat_spec s);
     nk_tf : forall c h, aget (st_cache K s) (named (tfname c)) = Some h ->
               hashed_ok s h (tfname c) (derive (tfname c) 0 [concat_spec s]) \/ lookup_ok s h
   }.
@@ -934,6 +949,7 @@ Section Proofs.
     - intros l h Hg. apply Hc in Hg. eapply (nk_keys _ _ N); eauto.
     - intros h Hg. pose proof (Hm _ _ Hg) as Hm'. apply Hc in Hg. destruct (nk_cwtf _ _ N _ Hg) as (v & Hv & Hst).
       exists v. split; [eapply hashed_ok_frame; eauto | rewrite W; auto].
+    - intros h Hg. pose proof (Hm _ _ Hg) as Hm'. apply Hc in Hg. rewrite C. eapply hashed_ok_frame; eauto. apply (nk_concat _ _ N). auto.
     - intros c h Hg. rewrite C. pose proof (Hm _ _ Hg) as Hm'. apply Hc in Hg.
       destruct (nk_tf _ _ N _ _ Hg) as [Hh|(l & a & b & d & e)]; [left; eapply hashed_ok_frame; eauto|].
       right. exists l. repeat (split; auto). rewrite <- a. auto.
@@ -941,8 +957,9 @@ Section Proofs.
 
   Lemma named_in_db St s l h : NamedOKg St s -> aget (st_cache K s) (PL l) = Some h -> amem (st_db K s) (h_phys K h) = true.
   Proof.
-    intros N Hg. destruct (nk_keys _ _ N _ _ Hg) as [->|[c ->]].
+    intros N Hg. destruct (nk_keys _ _ N _ _ Hg) as [->|[->|[c ->]]].
     - destruct (nk_cwtf _ _ N _ Hg) as (v & (t & _ & _ & _ & _ & e & _) & _). auto.
+    - destruct (nk_concat _ _ N _ Hg) as (t & _ & _ & _ & _ & e & _). auto.
     - destruct (nk_tf _ _ N _ _ Hg) as [(t & _ & _ & _ & _ & e & _)|(l0 & a & _ & _ & e)]; [auto|rewrite a; auto].
   Qed.
 
@@ -1016,11 +1033,11 @@ Section Proofs.
   (* ---------------------------------------------------------------- storing named entries *)
   Lemma weak_absent St s : NamedOKg St s -> aget (st_cache K s) (named CWTF) = None -> NamedOK s.
   Proof.
-    intros N Ha. constructor; [apply (nk_keys _ _ N)| |apply (nk_tf _ _ N)]. intros h Hg. rewrite Ha in Hg. discriminate.
+    intros N Ha. constructor; [apply (nk_keys _ _ N)| |apply (nk_concat _ _ N)|apply (nk_tf _ _ N)]. intros h Hg. rewrite Ha in Hg. discriminate.
   Qed.
   Lemma NamedOK_weaken St s : NamedOKg St s -> NamedOKg False s.
   Proof.
-    intros N. constructor; [apply (nk_keys _ _ N)| |apply (nk_tf _ _ N)].
+    intros N. constructor; [apply (nk_keys _ _ N)| |apply (nk_concat _ _ N)|apply (nk_tf _ _ N)].
     intros h Hg. destruct (nk_cwtf _ _ N _ Hg) as (v & Hv & _). exists v. split; auto. intros [].
   Qed.
 
@@ -1030,6 +1047,11 @@ Section Proofs.
   Proof. unfold Cache.named. intros H. congruence. Qed.
   Lemma named_tf_neq_cwtf c : named (tfname c) <> named CWTF.
   Proof. intros H. apply named_inj in H. eapply tf_not_cwtf; eauto. Qed.
+
+  Lemma named_tf_neq_concat c : named (tfname c) <> named CONCAT.
+  Proof. intros H. apply named_inj in H. eapply tf_not_concat; eauto. Qed.
+  Lemma named_cwtf_neq_concat : named CWTF <> named CONCAT.
+  Proof. intros H. apply named_inj in H. apply cwtf_not_concat. auto. Qed.
 
   Lemma lookup_of_set_other s c c' h :
     c' <> c -> lookup_of (set_cache K s (aset (st_cache K s) (named (tfname c)) h)) c' = lookup_of s c'.
@@ -1048,10 +1070,14 @@ Section Proofs.
   Proof.
     intros N Hh s'.
     assert (C : concat_spec s' = concat_spec s) by reflexivity.
-    assert (Hk : forall l h0, aget (st_cache K s') (PL l) = Some h0 -> l = LPlain CWTF \/ exists c0, l = LPlain (tfname c0)).
+    assert (Hk : forall l h0, aget (st_cache K s') (PL l) = Some h0 ->
+                 l = LPlain CWTF \/ l = LPlain CONCAT \/ exists c0, l = LPlain (tfname c0)).
     { intros l h0. unfold s'. cbn. rewrite aget_aset. destruct (pname_eqb (named (tfname c)) (PL l)) eqn:E.
-      - apply pname_eqb_spec in E. apply PL_LPlain_inj in E. intros _. right. eauto.
+      - apply pname_eqb_spec in E. apply PL_LPlain_inj in E. intros _. right. right. eauto.
       - apply (nk_keys _ _ N). }
+    assert (Hcc : forall h0, aget (st_cache K s') (named CONCAT) = Some h0 -> hashed_ok s' h0 CONCAT (concat_spec s')).
+    { intros h0. unfold s'. cbn. rewrite aget_aset_other by (intros X; symmetry in X; apply named_tf_neq_concat in X; auto).
+      apply (nk_concat _ _ N). }
     assert (Htf : forall c0 h0, aget (st_cache K s') (named (tfname c0)) = Some h0 ->
                   hashed_ok s' h0 (tfname c0) (derive (tfname c0) 0 [concat_spec s']) \/ lookup_ok s' h0).
     { intros c0 h0. unfold s'. cbn. rewrite aget_aset. destruct (pname_eqb (named (tfname c)) (named (tfname c0))) eqn:E.
@@ -1082,7 +1108,28 @@ Section Proofs.
       + apply (nk_keys _ _ N).
     - intros h0. unfold s'. cbn. rewrite aget_aset_same. intros H. inversion H; subst h0.
       exists (cwtf_spec s). split; [exact Hh|]. intros _. symmetry. exact W.
+    - intros h0. unfold s'. cbn. rewrite aget_aset_other by (intros X; symmetry in X; apply named_cwtf_neq_concat in X; auto).
+      apply (nk_concat _ _ N).
     - intros c h0. unfold s'. cbn. rewrite aget_aset_other by apply named_tf_neq_cwtf. apply (nk_tf _ _ N).
+  Qed.
+
+  Lemma NamedOK_set_concat St s h :
+    NamedOKg St s -> hashed_ok s h CONCAT (concat_spec s) ->
+    NamedOKg St (set_cache K s (aset (st_cache K s) (named CONCAT) h)).
+  Proof.
+    intros N Hh. set (s' := set_cache K s (aset (st_cache K s) (named CONCAT) h)).
+    assert (L : forall c, lookup_of s' c = lookup_of s c).
+    { intros c. unfold lookup_of, s'. cbn. rewrite aget_aset_other; auto. apply named_tf_neq_concat. }
+    assert (C : concat_spec s' = concat_spec s) by reflexivity.
+    assert (W : cwtf_spec s' = cwtf_spec s) by (apply cwtf_spec_frame; auto).
+    constructor.
+    - intros l h0. unfold s'. cbn. rewrite aget_aset. destruct (pname_eqb (named CONCAT) (PL l)) eqn:E.
+      + apply pname_eqb_spec in E. apply PL_LPlain_inj in E. auto.
+      + apply (nk_keys _ _ N).
+    - intros h0. unfold s'. cbn. rewrite aget_aset_other by apply named_cwtf_neq_concat. intros Hg.
+      destruct (nk_cwtf _ _ N _ Hg) as (v & Hv & Hst). exists v. split; [exact Hv|]. fold s'. rewrite W. exact Hst.
+    - intros h0. unfold s'. cbn. rewrite aget_aset_same. intros H. inversion H; subst h0. exact Hh.
+    - intros c h0. unfold s'. cbn. rewrite aget_aset_other by apply named_tf_neq_concat. apply (nk_tf _ _ N).
   Qed.
 
   (* ---------------------------------------------------------------- trees built by the two named computations *)
@@ -1161,15 +1208,10 @@ Section Proofs.
     | _ => True
     end.
 
-  Lemma named_concat_absent St s : NamedOKg St s -> aget (st_cache K s) (named CONCAT) = None.
-  Proof.
-    intros N. destruct (aget (st_cache K s) (named CONCAT)) eqn:E; auto.
-    destruct (nk_keys _ _ N _ _ E) as [H|[c H]]; exfalso; [apply cwtf_not_concat|apply (tf_not_concat c)]; congruence.
-  Qed.
   Lemma not_named_absent St s n : NamedOKg St s -> is_named_name n = false -> aget (st_cache K s) (named n) = None.
   Proof.
     intros N Hn. destruct (not_named_neq n Hn) as (a & b & c). destruct (aget (st_cache K s) (named n)) eqn:E; auto.
-    destruct (nk_keys _ _ N _ _ E) as [H|[c0 H]]; exfalso; [apply a | apply (c c0)]; congruence.
+    destruct (nk_keys _ _ N _ _ E) as [H|[H|[c0 H]]]; exfalso; [apply a | apply b | apply (c c0)]; congruence.
   Qed.
 
   Lemma invalidate_cache_nil s : st_cache K (invalidate K keqb s) = [].
@@ -1199,7 +1241,11 @@ Section Proofs.
     forallb (amem (st_db K s)) (direct_refs (st_uid K s) T) = true.
   Proof.
     intros I N. unfold the_tree, resolve_all. cbn [fold_right]. unfold resolve.
-    rewrite (named_concat_absent _ s N).
+    destruct (aget (st_cache K s) (named CONCAT)) eqn:E0.
+    { destruct (nk_concat _ _ N _ E0) as (t & a & b & d & e & f & g).
+      cbn [r_app r_trees r_handle r_nil app]. rewrite a. split; [reflexivity|]. split.
+      - cbn [Cache.denote map]. fold (denote (st_db K s)). rewrite g. auto.
+      - cbn [Cache.direct_refs flat_map app forallb]. rewrite b, <- d, f. auto. }
     destruct (aget (st_cache K s) (named CWTF)) eqn:E.
     - destruct (nk_cwtf _ _ N _ E) as (v & (t & a & b & d & e & f & g) & Hv). specialize (Hv Logic.I). rewrite Hv in g.
       cbn [r_app r_trees r_nil app]. rewrite a. split; [reflexivity|]. split.
@@ -1265,6 +1311,21 @@ Section Proofs.
       cbn in H |- *. destruct H as (I1 & S1 & Hh & Hc & Hgr & Hpl).
       destruct Hc as (c1 & c2 & c3 & c4 & c5 & c6 & c7 & c8).
       apply (NamedOK_frame True s s1); auto. apply grows_extends; auto.
+    - (* IComputeConcat *)
+      destruct (aget (st_cache K s) (named CONCAT)) eqn:E; cbn -[exec_pipeline]; [exact N|].
+      destruct (aget (st_cache K s) (named CWTF)) eqn:E2; cbn -[exec_pipeline]; [exact N|].
+      pose proof (exec_pipeline_spec s CONCAT (concat_tree K s) [] [] true I Hs eq_refl) as H.
+      pose proof (exec_result s CONCAT (concat_tree K s) [] [] I Hs eq_refl E (ready_concat_tree s I)) as R.
+      destruct (exec_pipeline K keqb hash s CONCAT (concat_tree K s) [] [] true) as [[s1 h] ev].
+      cbn in H, R |- *. destruct H as (I1 & S1 & Hh & Hc & Hgr & Hpl). destruct R as (r1 & r2 & r3 & r4 & r5).
+      destruct Hc as (c1 & c2 & c3 & c4 & c5 & c6 & c7 & c8).
+      assert (N1 : NamedOK s1) by (apply (NamedOK_frame True s s1); auto; apply grows_extends; auto).
+      apply (NamedOK_set_concat True s1 h N1).
+      exists (concat_tree K s). rewrite c4. repeat (split; auto).
+      rewrite (grows_leaves_denote s s1) by auto. rewrite denote_concat_tree. symmetry.
+      apply concat_spec_frame; auto. destruct (grows_extends _ _ Hgr); auto.
+    - (* IFreshUid *)
+      constructor; [apply (nk_keys _ _ N)|apply (nk_cwtf _ _ N)|apply (nk_concat _ _ N)|apply (nk_tf _ _ N)].
     - (* IDrop *)
       destruct (nth_error regs i) eqn:E; cbn; [|exact N].
       assert (Hh : cbs_hashed h). { unfold regs_ok in Hr. rewrite Forall_forall in Hr. apply Hr. eapply nth_error_In; eauto. }
@@ -1316,7 +1377,7 @@ Section Proofs.
       + intros l0 Hm. cbn. apply aget_aset_other. intros X. inversion X; subst. rewrite Hm in Em. discriminate.
       + intros p0 Hp0. cbn. rewrite amem_aset, Hp0. apply orb_true_r.
     - (* ISetParams *)
-      constructor; [apply (nk_keys _ _ N)|apply (nk_cwtf _ _ N)|apply (nk_tf _ _ N)].
+      constructor; [apply (nk_keys _ _ N)|apply (nk_cwtf _ _ N)|apply (nk_concat _ _ N)|apply (nk_tf _ _ N)].
     - (* IInvalidate *)
       apply NamedOK_nil. apply invalidate_cache_nil.
     - (* IDeleteTables *)
@@ -1697,6 +1758,40 @@ Section Proofs.
     assert (Hp : st_params K (step K keqb hash s0 (ChangeInputInvalidate v)) = st_params K s0).
     { pose proof (obs_after_change s0 v I0) as O. unfold obs in O. injection O. auto. }
     rewrite Es, (obs_after_change s0 v I0), Hin, Htf, Hp. reflexivity.
+  Qed.
+  (* ---------------------------------------------------------------- the DB-existence fallback is dead code here *)
+  (* _get_table_from_cache_or_db falls back on table_exists_in_database(templ_hash) when neither the named nor the
+     hashed key is cached.  On one DatabaseAPI, every hashed table in the database is cached under its own name, so
+     the fallback is never taken: whenever the hashed key is absent from the cache the table is absent too. *)
+  Theorem db_fallback_unreachable inputs ver tfcols params uid luid fx ops :
+    inputs_plain inputs -> forallb op_ok_hashed ops = true ->
+    let s := run K keqb hash (init_state K inputs ver tfcols params uid luid fx) ops in
+    forall n k, aget (st_cache K s) (PH n k) = None -> amem (st_db K s) (PH n k) = false.
+  Proof.
+    intros Hp Hok s n k Hn.
+    destruct (run_inv ops _ Hok (init_inv inputs ver tfcols params uid luid fx Hp)) as ([I _] & _). fold s in I.
+    destruct (amem (st_db K s) (PH n k)) eqn:E; auto. apply (iv_db_h _ I) in E. unfold Cache.amem in E. rewrite Hn in E. discriminate.
+  Qed.
+  (* hence exec_pipeline with use_cache = true either hits the cache or really executes *)
+  Corollary exec_pipeline_hit_or_run inputs ver tfcols params uid luid fx ops templ tree al mids :
+    inputs_plain inputs -> forallb op_ok_hashed ops = true ->
+    let s := run K keqb hash (init_state K inputs ver tfcols params uid luid fx) ops in
+    exec_pipeline K keqb hash s templ tree al mids true =
+    match aget (st_cache K s) (named templ) with
+    | Some h => (s, h, [Hit (h_templ K h) (pbase K (h_phys K h))])
+    | None => match aget (st_cache K s) (PH templ (hash tree (st_uid K s))) with
+              | Some h => (s, h, [Hit (h_templ K h) (pbase K (h_phys K h))])
+              | None => exec_run K keqb hash s templ tree
+              end
+    end.
+  Proof.
+    intros Hp Hok s.
+    destruct (run_inv ops _ Hok (init_inv inputs ver tfcols params uid luid fx Hp)) as ([I _] & _). fold s in I.
+    unfold exec_pipeline. rewrite (iv_nodebug _ I).
+    destruct (aget (st_cache K s) (named templ)); auto.
+    destruct (aget (st_cache K s) (PH templ (hash tree (st_uid K s)))) eqn:E; auto.
+    pose proof (db_fallback_unreachable inputs ver tfcols params uid luid fx ops Hp Hok _ _ E) as F. fold s in F. cbv zeta in F.
+    rewrite F. reflexivity.
   Qed.
 End Proofs.
 
